@@ -53,11 +53,21 @@ def rule_traces_to_sets(ctx: Ctx, repo: Repo) -> None:
         return R("inst", __cls__=K("monkeytype.tracing.CallTrace"), func=func, arg_types=R("dict", items=((K("a"), a),) if a is not None else ()),
                  return_type=ret, yield_type=yld)
 
+    from .sig_model import NONE_T
+    f3 = S("func:f3")
+    # f3: a generator of which one call returned a value and another ran off its end (its return type is the real NoneType)
     base = [tr(f1, INT, STR), tr(f1, STR, K(None)), tr(f1, INT, STR), tr(f2, NONE, INT, STR), tr(f2, INT, STR, INT)]
+    # FALSY: a class object that is false as a truth value (its metaclass defines __len__ / __bool__: a registry of plugins,
+    # an enum-like class with no members yet) - a type all the same, observed at every position of f3's first call
+    FALSY = S("t:Registry", truth=False)
+    gen = [tr(f3, FALSY, NONE_T, FALSY), tr(f3, INT, FALSY, INT)]
     seen: Dict[str, Any] = {}
     n = 0
     for perm in sorted(set(itertools.permutations(range(len(base))))):
+        # the two generator traces go to the front in the order of the first two of the permuted five, or to the back
         traces = [base[i] for i in perm]
+        g2 = gen if perm[0] < perm[1] else gen[::-1]
+        traces = (g2 + traces) if perm[2] < perm[3] else (traces[:2] + g2[:1] + traces[2:] + g2[1:])
         sc = StubScenario(repo, "build_module_stubs_from_traces", inline=("get_updated_definition", "shrink_traced_types"))
         sc.ri.heap = True
         record: List[Tuple[Any, ...]] = []
@@ -90,7 +100,11 @@ def rule_traces_to_sets(ctx: Ctx, repo: Repo) -> None:
         if n == 1:
             # the per-function calls must carry all observed types, the caller's strategy, rewriter and limit
             by_func = {r[0]: r for r in record}
-            ok = set(by_func) == {f1, f2}
+            ok = set(by_func) == {f1, f2, f3}
+            if ok:
+                r3 = by_func[f3]
+                ok = r3[2] == R("rewritten", of=R("shrunk", of=K(frozenset({NONE_T, FALSY})), limit=K(2))) and r3[3] == R("rewritten", of=R("shrunk", of=K(frozenset({INT, FALSY})), limit=K(2))) \
+                    and r3[1] == R("dict", items=((K("a"), R("rewritten", of=R("shrunk", of=K(frozenset({INT, FALSY})), limit=K(2)))),))
             if ok:
                 r1 = by_func[f1]
                 a1 = r1[1]
